@@ -58,7 +58,8 @@ Dropped(bc, as) == [a \in Addr |-> IF a \in as THEN None ELSE bc[a]]
 Invalidates(i, r, kind) == IF kind = "reject" THEN {i} ELSE {i, r}
 
 \* the Balance handler for address a, the ledger answering c; authentic = data is the address and its key signed
-BalanceStep(a, c, authentic) ==
+\* (async: the save goroutine of THIS request lands later)
+BalanceStepA(a, c, authentic, async) ==
     IF a \in thr
     THEN /\ reply' = [res |-> "throttle", a |-> a, v |-> 0, c |-> c]
          /\ UNCHANGED <<bcache, thr, pend>>
@@ -70,9 +71,11 @@ BalanceStep(a, c, authentic) ==
                  THEN /\ reply' = [res |-> "ok", a |-> a, v |-> bcache[a], c |-> c]
                       /\ UNCHANGED <<bcache, pend>>
                  ELSE /\ reply' = [res |-> "ok", a |-> a, v |-> c, c |-> c]
-                      /\ IF Async
+                      /\ IF async
                          THEN pend' = pend \cup {[k |-> "save", a |-> a, v |-> c]} /\ UNCHANGED bcache
                          ELSE bcache' = Saved(bcache, a, c) /\ UNCHANGED pend
+
+BalanceStep(a, c, authentic) == BalanceStepA(a, c, authentic, Async)
 
 \* what a successful seal does to throttle and cache
 SealStep(i, r, kind) ==
